@@ -334,7 +334,7 @@ def _check(case, nm, skip, labels, tmp):
     gin.parse_config(PRELUDE)
     labels.add('prelude-registered-am.fn')
   entry = case.get('entry') or 'string'
-  if case['mode'] == 'dynamic':
+  if case['mode'] == 'dynamic' and entry not in ('string', 'list', 'tuple'):
     entry = 'string'
   labels.add('entry:' + entry)
   try:
@@ -342,6 +342,13 @@ def _check(case, nm, skip, labels, tmp):
       warnings.simplefilter('ignore')
       if entry == 'string':
         gin.parse_config(text, skip_unknown=skip_value(skip))
+      elif entry in ('list', 'tuple'):
+        # "a list of individual parameter binding strings": one entry per statement (the lines
+        # of the header -- enabling statement and imports -- are entries of their own)
+        t = S.Tape(case['tape'])
+        entries = list(nm['header']) + ['\n'.join(S.render_simple(s_, t, set())) for s_ in stmts]
+        gin.parse_config(entries if entry == 'list' else tuple(entries),
+                         skip_unknown=skip_value(skip))
       else:
         # the same text reached as a file, or through an include: skip_unknown means the same
         path = os.path.join(tmp, 'c15text.gin')
@@ -577,5 +584,6 @@ def strategy(draw):
     elif s[0] == 'block':
       s[3] = [[a, no_known_calls(v)] for a, v in s[3]]
   return {'mode': mode, 'skip': [kind, listed], 'stmts': stmts, 'tape': draw(S.tapes(10)),
-          'entry': draw(st.sampled_from(['string', 'string', 'file', 'include', 'multi'])),
+          'entry': draw(st.sampled_from(['string', 'string', 'file', 'include', 'multi', 'list',
+                                         'tuple'])),
           'prelude': draw(st.booleans())}
